@@ -1122,6 +1122,23 @@ fn conv_cases(tier: &str, out_path: &str) -> i32 {
                 setup.sys.push(Entry { key: vec![*s], text: cjk(&mut rng).to_string(), freq: rng.below(100) as u32, time: 0 });
             }
         }
+        // every second case: a dense graph - two or three syllables, many overlapping phrases of 2..4 of them,
+        // so that the buffer has many paths (alternatives, trimming, ranking); sometimes with frequencies that
+        // do not fit in i32 (the score saturates since fix 2d722b2)
+        let dense = n % 2 == 1;
+        let alphabet = if dense { 2 + rng.below(2) as usize } else { world.syls.len() };
+        if dense {
+            let huge = rng.chance(1, 6);
+            for _ in 0..(6 + rng.below(10)) {
+                let len = 2 + rng.below(3) as usize;
+                let key: Vec<Syllable> = (0..len).map(|_| world.syls[rng.below(alphabet as u64) as usize]).collect();
+                let text: String = (0..len).map(|_| cjk(&mut rng)).collect();
+                let freq = if huge && rng.chance(1, 2) { 2_000_000_000u32 + rng.below(2_294_967_295) as u32 } else { rng.below(5000) as u32 };
+                if !setup.sys.iter().any(|e| e.key == key && e.text == text) {
+                    setup.sys.push(Entry { key, text, freq, time: 0 });
+                }
+            }
+        }
         let mut out = String::new();
         write_setup(n, &setup, &mut out);
         let mut sys = TrieBuf::new_in_memory();
@@ -1136,10 +1153,10 @@ fn conv_cases(tier: &str, out_path: &str) -> i32 {
         let len = 1 + rng.below(if tier == "thorough" { 30 } else { 14 }) as usize;
         let mut comp = Composition::new();
         for _ in 0..len {
-            if rng.chance(1, 7) {
+            if rng.chance(1, if dense { 12 } else { 7 }) {
                 comp.push(Symbol::from(*rng.pick(&['a', '，', '1', 'Z', '。'])));
             } else {
-                comp.push(Symbol::from(world.syls[rng.below(world.syls.len() as u64) as usize]));
+                comp.push(Symbol::from(world.syls[rng.below(alphabet as u64) as usize]));
             }
         }
         for _ in 0..rng.below(4) {
